@@ -451,9 +451,53 @@ func isFuncName(c Case, p string) bool {
 	return false
 }
 
+func nonASCII(s string) bool {
+	for _, r := range s {
+		if r >= 0x80 {
+			return true
+		}
+	}
+	return false
+}
+
 func classify(c Case) (bool, []string) {
 	var cls []string
 	add := func(s string) { cls = append(cls, s) }
+	for _, a := range c.Attrs {
+		mixed := func(s string) bool { return nonASCII(s) && strings.ContainsAny(s, "&<>\"'\r") }
+		switch a.Kind {
+		case "static", "lit":
+			if nonASCII(a.Text) {
+				add("non-ascii:" + a.Kind)
+				if mixed(a.Text) {
+					add("non-ascii+escaped:" + a.Kind)
+				}
+			}
+		case "interp":
+			if v := c.lookup(a.Path, 0); nonASCII(a.Text+a.Post) || (v.K == "string" && nonASCII(v.S)) {
+				add("non-ascii:interpolated")
+			}
+		case "bind", "vbind", "show":
+			if nonASCII(a.Text) {
+				add("non-ascii:variable-name")
+			}
+			if v := c.lookup(a.Text, 0); v.K == "string" && nonASCII(v.S) {
+				add("non-ascii:bound-value")
+				if mixed(v.S) {
+					add("non-ascii+escaped:bound-value")
+				}
+			}
+		case "obj", "vobj":
+			for _, p := range a.Pairs {
+				if nonASCII(p.Key) {
+					add("non-ascii:" + a.Name + "-object-key")
+				}
+				if nonASCII(p.Arg) {
+					add("non-ascii:object-value-or-name")
+				}
+			}
+		}
+	}
 	for _, a := range c.Attrs {
 		xs := []*Expr{a.X}
 		for _, p := range a.Pairs {
@@ -1007,6 +1051,9 @@ func tableVals() []vals.V {
 		vals.Str("url(https://x.test/v.png)"), vals.Str("red !important"), vals.Str("rgba(1, 2, 3, 0.5)"), vals.Str("local('a b'), serif"),
 		vals.Str("background-image: url(https://x.test/z.png); color: red"), vals.Str(`font-family: "Open Sans", serif; width: calc(50% + 1px)`),
 		vals.Str("background: url(http://h.test:8080/p.png) no-repeat; color: red !important"),
+		// text beyond ASCII next to the escaped characters
+		vals.Str("Müller & Söhne"), vals.Str("東京 <Tōkyō>"), vals.Str("Tom's 🍕"), vals.Str("d'été"), vals.Str("e\u0301 \"q\" & é"), vals.Str("вкл>выкл\rx"), vals.Str("größe 見出し"),
+		vals.Str("font-family: '明朝', serif; content: \"é & ü\""),
 		// line breaks, tabs, runs of blanks
 		vals.Str("first line\nsecond  line"), vals.Str("a\r\nb"), vals.Str("\ttab\n"), vals.Str("x\ry"), vals.Str("p\n\nq"),
 		// backslash escapes inside quoted strings
@@ -1111,6 +1158,15 @@ func coreForms() []form {
 				{Key: "k3", Src: "tern", Arg: "nope", Neg: true, Alt: "path", Then: x, Else: "other"},
 				{Key: "k4", Src: "tern", Arg: "yes", Neg: true, Alt: "str", Then: "x", Else: ""}}}}
 		}},
+		{"nonascii-static", func(x string) []Attr {
+			return []Attr{st("title", "Müller & Söhne"), st("alt", "東京 <Tōkyō> \"q\""), {Kind: "lit", Name: "data-note", Text: "Tom's 🍕 & d'été"},
+				{Kind: "interp", Name: "name", Text: "é&", Path: x, Post: "<ü>"}, {Kind: "vbind", Name: "id", Text: x}, st("class", "größe 見出し")}
+		}},
+		{"nonascii-object", func(x string) []Attr {
+			return []Attr{st("class", "s1 вкл"), {Kind: "obj", Name: "class", Pairs: []Pair{{Key: "größe", Q: true, Src: "path", Arg: x}, {Key: "見出し", Q: true, Src: "bool", Arg: "true"}, {Key: "🍕", Q: true, Src: "path", Arg: "включено"}, {Key: "k1", Src: "path", Arg: "включено"}}},
+				st("style", "font-family: '明朝', serif; color: blue"), {Kind: "vobj", Name: "style", Pairs: []Pair{{Key: "fontFamily", Src: "str", Arg: "明朝"}, {Key: "content", Src: "path", Arg: x}, {Key: "--имя", Q: true, Src: "str", Arg: "зн 🍕"}}},
+				{Kind: "show", Text: "включено"}}
+		}},
 		{"style-case-static-upper+obj", func(x string) []Attr {
 			return []Attr{st("style", "COLOR: red ; Width : 1px; --X: 1; Font-Size: 9px"), {Kind: "obj", Name: "style", Pairs: []Pair{
 				{Key: "color", Src: "path", Arg: x}, {Key: "fontSize", Src: "str", Arg: "12px"}, {Key: "--x", Q: true, Src: "str", Arg: "2"}}}}
@@ -1188,7 +1244,7 @@ func corePlacements() []placement {
 func baseData(x vals.V) map[string]vals.V {
 	return map[string]vals.V{
 		"x": x, "other": vals.Str("o"), "five": vals.Int(5), "yes": vals.Bool(true), "chainoff": vals.Bool(false),
-		"markup": vals.Str("<b>h</b>"), "plain": vals.Str("txt"), "rich": vals.Str("url(https://x.test/r.png)"), "imp": vals.Str("red !important"), "quoted": vals.Str("'Open Sans', serif"), "dnone": vals.Str("width: 1px; display: none"), "upstyle": vals.Str("COLOR: blue; Width: 2px; --MyVar: 3"), "nope": vals.Bool(false), "esc": vals.Str(`"x\";y"`),
+		"markup": vals.Str("<b>h</b>"), "plain": vals.Str("txt"), "rich": vals.Str("url(https://x.test/r.png)"), "imp": vals.Str("red !important"), "quoted": vals.Str("'Open Sans', serif"), "dnone": vals.Str("width: 1px; display: none"), "включено": vals.Bool(false), "upstyle": vals.Str("COLOR: blue; Width: 2px; --MyVar: 3"), "nope": vals.Bool(false), "esc": vals.Str(`"x\";y"`),
 		forList: vals.List("[]any", vals.Str("i1"), vals.Str("i2")),
 	}
 }
@@ -1670,11 +1726,18 @@ type builder struct {
 
 func (b *builder) newVar(v vals.V) string {
 	name := fmt.Sprintf("v%d", len(b.c.Data))
+	if rapid.IntRange(0, 9).Draw(b.t, name+"-nonascii") >= 8 {
+		// a variable name beyond ASCII: 2-, 3-byte letters
+		name = pick(b.t, name+"-na", []string{"включено", "größe", "変数", "naïve", "données"}) + strconv.Itoa(len(b.c.Data))
+	}
 	b.c.Data[name] = v
 	return name
 }
 
 func (b *builder) anyVal(label string) vals.V {
+	if chance(b.t, label+"-nonascii", 12) {
+		return pick(b.t, label+"-nav", nonASCIIVals)
+	}
 	if chance(b.t, label+"-scalarform", 12) {
 		return pick(b.t, label+"-sf", scalarForms())
 	}
@@ -1719,15 +1782,19 @@ var (
 		"data-v-step", "x-v-if", "xml:lang", "a.b", "data_x", "aria-label", "x:y.z", "v.once", "vbind"}
 	staticTexts = []string{"x", "a b", "", "q1", "Mixed-Case_9", " pad ", "tail  ", "  lead",
 		// line breaks, tabs and runs of blanks are part of the value: nothing may fold them
+		// text beyond ASCII next to the characters that are escaped
+		"Müller & Söhne", "東京 <Tōkyō>", "Tom's 🍕", "d'été", "e\u0301 \"q\" & é", "вкл>выкл\rx", "Müller und Söhne",
 		"line one\n    line two", "a\r\nb", "x\ry", "\ttab \n ", "two\n\nblank", "a  b\tc", "\nlead and tail\n"}
+	nonASCIIVals  = []vals.V{vals.Str("Müller & Söhne"), vals.Str("東京 <Tōkyō>"), vals.Str("Tom's 🍕"), vals.Str("d'été"), vals.Str("e\u0301 \"q\" & é"), vals.Str("вкл>выкл\rx"), vals.Str("größe"), vals.Str("見出し 🍕")}
 	multiLineVals = []vals.V{vals.Str("first line\nsecond  line"), vals.Str("a\r\nb"), vals.Str("\ttab\n"), vals.Str("x\ry"), vals.Str("p\n\nq"), vals.Str("  two  blanks\t")}
 	litNames      = []string{"v-if", "v-show", "v-for", ":lang", ":class", "v-bind:id", "v-html", "v-once", "v-else", ":style"}
-	litTexts      = []string{"x", "count", "a > b", "some text", "{a: b}", "item in items", " pad ", "l1\n  l2", "a &&\r\n\tb", "x  y"}
+	litTexts      = []string{"x", "count", "a > b", "some text", "{a: b}", "item in items", " pad ", "l1\n  l2", "a &&\r\n\tb", "x  y", "Müller & Söhne", "東京 <Tōkyō>", "d'été 🍕"}
 	simpleVals    = []vals.V{vals.Str("hello"), vals.Str("x"), vals.Int(7), vals.Str(""), vals.Bool(true), vals.Num("float64", "0.5"), vals.Str("a b"), vals.Nil(), vals.Str("first line\nsecond  line"), vals.Str("x\ry")}
 	rowOnVals     = []vals.V{vals.Str("False"), vals.Str("FALSE"), vals.Str("00"), vals.Str(" false"), vals.Int(0), vals.Int(1), vals.Str(""), vals.Str("x"), vals.Nil(), vals.Num("uint8", "0"), vals.Num("float64", "0.5"), vals.Str("0"), vals.Num("float32", "0")}
 	truthyVals    = []vals.V{vals.Bool(true), vals.Int(1), vals.Str("x"), vals.Num("uint8", "3")}
-	classKeys     = []Pair{{Key: "k1"}, {Key: "k-2", Q: true}, {Key: "k3"}, {Key: "k4", Q: true}, {Key: "is-on", Q: true}}
-	styleKeys     = []Pair{{Key: "color"}, {Key: "fontSize"}, {Key: "backgroundColor"}, {Key: "borderTopWidth"}, {Key: "width"}, {Key: "--x", Q: true},
+	classKeys     = []Pair{{Key: "k1"}, {Key: "k-2", Q: true}, {Key: "k3"}, {Key: "k4", Q: true}, {Key: "is-on", Q: true},
+		{Key: "größe", Q: true}, {Key: "見出し", Q: true}, {Key: "вкл", Q: true}, {Key: "🍕", Q: true}, {Key: "e\u0301tat", Q: true}}
+	styleKeys = []Pair{{Key: "color"}, {Key: "fontSize"}, {Key: "backgroundColor"}, {Key: "borderTopWidth"}, {Key: "width"}, {Key: "--x", Q: true},
 		{Key: "--myVar", Q: true}, {Key: "margin-top", Q: true}, {Key: "display"}, {Key: "padding"}, {Key: "color", Q: true}}
 	staticDecls = [][2]string{{"color", "blue"}, {"padding", "1px"}, {"width", "3px"}, {"font-size", "9px"}, {"display", "block"}, {"--x", "1"}, {"background-color", "white"}, {"margin-top", "4px"},
 		// the style's own display declarations: kept whatever v-show says, unless v-show is falsy
@@ -1738,6 +1805,7 @@ var (
 		{"background-image", "url(https://x.test/y.png)"}, {"background", "url(//cdn.test:8080/a.png) no-repeat"}, {"color", "blue !important"},
 		{"font-family", "'Open Sans', serif"}, {"width", "calc(100% - 2px)"}, {"content", `"a:b"`}, {"--u", "url(http://h/p?q=r:s)"},
 		{"transition", "color 0.3s ease-in, width 1s"}, {"background-color", "rgba(1, 2, 3, 0.5)"}, {"grid-area", "1 / 2 / 3 / 4"},
+		{"font-family", "'明朝', serif"}, {"content", `"é & <ü> 🍕"`}, {"--имя", "значение"},
 		// backslash escapes inside quoted strings: the escaped quote does not end the string
 		{"content", `"x\";y"`}, {"content", `'it\'s;ok'`}, {"--e", `'a\\'`}, {"--f", `"p\;q"`}, {"quotes", `"\"" "\";"`},
 		// a ';' that is part of the value: data URIs, quoted strings
@@ -1753,9 +1821,9 @@ var (
 		vals.Str("local('a b'), serif"), vals.Str("color 0.3s ease-in, width 1s"), vals.Str("1 / 2"), vals.Str("url(//h.test:81/a?b=c:d)"), vals.Str(`"Open Sans", serif`), vals.Str("'k:v'"),
 		vals.Str("url(data:image/png;base64,CCCC)"), vals.Str("'a;b:c'"), vals.Str(`"q;r"`), vals.Str("serif, 'Open Sans'"),
 		vals.Str(`"x\";y"`), vals.Str(`'it\'s;ok'`), vals.Str(`'a\\'`)}
-	richStyleLits = []string{"url(data:image/png;base64,DDDD)", "url(https://x.test/l.png)", "red !important", "rgba(1, 2, 3, 0.5)", "calc(100% - 2px)", "1 / 2", "a, b"}
+	richStyleLits = []string{"url(data:image/png;base64,DDDD)", "url(https://x.test/l.png)", "red !important", "rgba(1, 2, 3, 0.5)", "calc(100% - 2px)", "1 / 2", "a, b", "明朝", "Ünï 🍕", "шрифт, serif"}
 	classStrs     = []vals.V{vals.Str("b1"), vals.Str("b1 b2"), vals.Str(""), vals.Str(" b3 "), vals.Int(5)}
-	styleVals     = []vals.V{vals.Str("red"), vals.Str("2px"), vals.Int(5), vals.Num("float64", "0.5"), vals.Str("bold"), vals.Num("uint16", "10")}
+	styleVals     = []vals.V{vals.Str("red"), vals.Str("明朝, 'MS 明朝'"), vals.Str("größe & <x>"), vals.Str("2px"), vals.Int(5), vals.Num("float64", "0.5"), vals.Str("bold"), vals.Num("uint16", "10")}
 )
 
 // expr draws an operator expression with fresh operand variables and a spelling.
@@ -2013,7 +2081,7 @@ func genCase(f *findings, table []vals.V) func(t *rapid.T) Case {
 		// class
 		if chance(t, "class", 60) {
 			staticOnly := !dynamicOK || allStatic
-			stc := Attr{Kind: "static", Name: "class", Text: pick(t, "class-st", []string{"s1", "s1 s2", " s1  s2 ", "s3"})}
+			stc := Attr{Kind: "static", Name: "class", Text: pick(t, "class-st", []string{"s1", "s1 s2", " s1  s2 ", "s3", "größe s1", "見出し", "s2 🍕 вкл"})}
 			bdc := func() Attr {
 				return Attr{Kind: pick(t, "class-bk", []string{"bind", "vbind"}), Name: "class", Text: func() string {
 					if chance(t, "class-any", 35) {
